@@ -16,10 +16,15 @@ use crate::{
 ///
 /// # Errors
 ///
-/// If the input types are not supported.
+/// If the input types are not supported or if the modulus is zero.
 pub fn mod_exp_offcircuit(x: &IrValue, n: u64, m: &IrValue) -> Result<IrValue, Error> {
     match (x, m) {
-        (IrValue::BigUint(x), IrValue::BigUint(m)) => Ok(x.modpow(&BigUint::from(n), m).into()),
+        (IrValue::BigUint(x), IrValue::BigUint(m)) => {
+            if m == &BigUint::ZERO {
+                return Err(Error::Other(format!("cannot compute {x}^{n} modulo zero")));
+            }
+            Ok(x.modpow(&BigUint::from(n), m).into())
+        }
         _ => Err(Error::Unsupported(
             Operation::ModExp(n),
             vec![x.get_type(), m.get_type()],
